@@ -28,49 +28,74 @@ pub fn mk_map<H: BuildHasher + Default>(entries: Vec<(Item, Pr)>, cap: usize) ->
     }
 }
 
+/// Does an iterator type *declare* an exact size (implement `ExactSizeIterator`)? Decided at
+/// compile time from /repo's current source by autoref specialisation, so that the exact-size
+/// obligations follow the crate: a type that starts to declare an exact size is held to it,
+/// one that does not is not.
+pub mod declared {
+    pub struct Probe<'x, T>(pub &'x T);
+    pub trait Exact {
+        fn declared_len(&self) -> Option<usize>;
+    }
+    impl<'x, T: ExactSizeIterator> Exact for Probe<'x, T> {
+        fn declared_len(&self) -> Option<usize> {
+            Some(ExactSizeIterator::len(self.0))
+        }
+    }
+    pub trait NotExact {
+        fn declared_len(&self) -> Option<usize>;
+    }
+    impl<'x, T> NotExact for &Probe<'x, T> {
+        fn declared_len(&self) -> Option<usize> {
+            None
+        }
+    }
+}
+#[allow(unused_imports)]
+use declared::{Exact, NotExact, Probe};
+
 /// What the harnesses need from an `iter_mut` iterator of either kind.
 pub trait MutIt<'a>: Iterator<Item = (&'a mut Item, &'a mut Pr)> {
-    /// offers `next_back` / declares an exact size
+    /// offers `next_back`
     const DOUBLE_ENDED: bool;
-    const EXACT: bool;
     fn back(&mut self) -> Option<(&'a mut Item, &'a mut Pr)>;
-    fn exact_len(&self) -> usize;
+    /// `Some(len())` iff the type declares an exact size
+    fn declared_len(&self) -> Option<usize>;
 }
 
 impl<'a, H: BuildHasher> MutIt<'a> for priority_queue::priority_queue::iterators::IterMut<'a, Item, Pr, H> {
     const DOUBLE_ENDED: bool = false;
-    const EXACT: bool = false;
     fn back(&mut self) -> Option<(&'a mut Item, &'a mut Pr)> {
         unreachable!()
     }
-    fn exact_len(&self) -> usize {
-        unreachable!()
+    fn declared_len(&self) -> Option<usize> {
+        (&Probe(self)).declared_len()
     }
 }
 
 impl<'a, H: BuildHasher> MutIt<'a> for priority_queue::double_priority_queue::iterators::IterMut<'a, Item, Pr, H> {
     const DOUBLE_ENDED: bool = true;
-    const EXACT: bool = true;
     fn back(&mut self) -> Option<(&'a mut Item, &'a mut Pr)> {
         self.next_back()
     }
-    fn exact_len(&self) -> usize {
-        ExactSizeIterator::len(self)
+    fn declared_len(&self) -> Option<usize> {
+        (&Probe(self)).declared_len()
     }
 }
 
 /// What the harnesses need from a sorted consuming iterator of either kind.
 pub trait SortedIt: Iterator<Item = (Item, Pr)> {
     fn back(&mut self) -> Option<(Item, Pr)>;
-    fn exact_len(&self) -> usize;
+    /// `Some(len())` iff the type declares an exact size
+    fn declared_len(&self) -> Option<usize>;
 }
 
 impl<H: BuildHasher> SortedIt for priority_queue::priority_queue::iterators::IntoSortedIter<Item, Pr, H> {
     fn back(&mut self) -> Option<(Item, Pr)> {
         unreachable!()
     }
-    fn exact_len(&self) -> usize {
-        unreachable!()
+    fn declared_len(&self) -> Option<usize> {
+        (&Probe(self)).declared_len()
     }
 }
 
@@ -78,8 +103,8 @@ impl<H: BuildHasher> SortedIt for priority_queue::double_priority_queue::iterato
     fn back(&mut self) -> Option<(Item, Pr)> {
         self.next_back()
     }
-    fn exact_len(&self) -> usize {
-        ExactSizeIterator::len(self)
+    fn declared_len(&self) -> Option<usize> {
+        (&Probe(self)).declared_len()
     }
 }
 
